@@ -72,6 +72,7 @@ PROPS = {
             'the exact-string search is proved against Find(region, s, 0) = region.find(s) through the lemma incremental_find, itself proved on every run (cvc5) from the definition of Find and cross-checked against CPython on short strings',
         ],
         'extra': 'contracts.extra_c03',
+        'technique_note': 'plus the string lemma incremental_find, proved on every run from the definition of Find (cvc5) and cross-checked against CPython on short strings (bounded)',
     },
     'C20': {
         'contracts': ['pexpect.spawnbase.SpawnBase._coerce_expect_string', 'pexpect.spawnbase.SpawnBase._coerce_expect_re',
@@ -193,6 +194,7 @@ PROPS = {
     'C13': {
         'contracts': ['pexpect.utils.split_command_line', 'pexpect.utils.is_executable_file', 'pexpect.utils.which', 'pexpect.pty_spawn.spawn._spawn'],
         'extra': 'contracts.extra_c13',
+        'technique_note': 'the quote/join round-trip law is a bounded check of the real function (labelled bounded, not counted as proved); everything else is proved',
         'bounds': {'*': {'alphabet': "a '\"\\\\", 'maxlen': 5}},
         'assumptions': ['str.isspace() decides what separates arguments (uninterpreted in the proof; the reference rules use the same predicate)',
                         'os.path.realpath/isfile/dirname/join and os.access are functions of their arguments during one lookup (the file system does not change under it); what the child finally sees (execvpe, chdir, TIOCSWINSZ) is ptyprocess / the kernel and is outside the contracts',
@@ -201,6 +203,7 @@ PROPS = {
     'C18': {
         'contracts': _screen_contracts() + _ansi_contracts(),
         'extra': 'contracts.extra_c18',
+        'technique_note': 'the ANSI transition table is decided by an exhaustive abstract interpretation of the table the real constructor builds (stack-depth invariant per state); chunk independence follows from the fold lemma in lemmas/History.lean',
         'bounds': {'*': {'alphabet': 'xy', 'maxlen': 1, 'ints': [0, 1, 2, 3, 4],
                          'per_name': {'rows': [1, 2, 3], 'cols': [1, 2, 3], 'nextid': [0], 'cur_saved_r': [1, 2], 'cur_saved_c': [1, 2]}}},
         'assumptions': [
